@@ -10,7 +10,7 @@
 // except according to those terms.
 
 use crate::client::{MetricBackend, StatsdClient};
-use crate::types::{Metric, MetricError, MetricResult};
+use crate::types::{ErrorKind, Metric, MetricError, MetricResult};
 use std::fmt::{self, Write};
 use std::marker::PhantomData;
 
@@ -381,6 +381,12 @@ where
     T: Metric + From<String>,
 {
     pub(crate) fn from_fmt(formatter: MetricFormatter<'m>, client: &'c StatsdClient) -> Self {
+        // A packed value with no elements would render as `key:|type`, which is
+        // not a valid metric line: reject it instead of sending it.
+        if formatter.val.count() == 0 {
+            return Self::from_error(MetricError::from((ErrorKind::InvalidInput, "empty value list")), client);
+        }
+
         MetricBuilder {
             repr: BuilderRepr::Success(formatter, client),
             type_: PhantomData,
